@@ -6,6 +6,10 @@ import (
 	"github.com/ipld/go-ipld-prime/datamodel"
 )
 
+// maxExploreRangeInterests is the largest range for which ExploreRange
+// precomputes its list of interesting path segments.
+const maxExploreRangeInterests = 4096
+
 // ExploreRange traverses a list, and for each element in the range specified,
 // will apply a next selector to those reached nodes.
 type ExploreRange struct {
@@ -83,10 +87,18 @@ func (pc ParseContext) ParseExploreRange(n datamodel.Node) (Selector, error) {
 		selector,
 		startValue,
 		endValue,
-		make([]datamodel.PathSegment, 0, endValue-startValue),
+		nil,
 	}
-	for i := startValue; i < endValue; i++ {
-		x.interest = append(x.interest, datamodel.PathSegmentOfInt(i))
+	// Only enumerate the interesting segments up front when the range is modest.
+	// The bounds come from the (possibly untrusted) selector document, so the
+	// enumeration must not be sized by them unchecked.  For larger (or
+	// overflowing) ranges, interest is left nil, which means "all children";
+	// Explore still filters by the range, so the same nodes are selected.
+	if size := endValue - startValue; size > 0 && size <= maxExploreRangeInterests {
+		x.interest = make([]datamodel.PathSegment, 0, size)
+		for i := startValue; i < endValue; i++ {
+			x.interest = append(x.interest, datamodel.PathSegmentOfInt(i))
+		}
 	}
 	return x, nil
 }
